@@ -815,7 +815,11 @@ class StructCodec(AbstractMetadataCodec):
                 return (item_dtype, (length,))
 
             elif node.get("type") in ("number", "integer", "boolean", "string", "null"):
-                fmt = node["binaryFormat"]
+                if node["type"] == "null":
+                    # A null without binaryFormat is encoded as zero bytes
+                    fmt = node.get("binaryFormat", "0x")
+                else:
+                    fmt = node["binaryFormat"]
                 dtype_str = _convert_binary_format(fmt)
 
                 if dtype_str[0] not in "VSU?":
